@@ -59,7 +59,9 @@ def main():
             if not cands:
                 print('   no unit for', name)
                 continue
-            u = cands[0]
+            pkgshort = head.partition('.')[0]
+            exact = [c for c in cands if c['pkg'].replace('/', '_') == pkgshort] or [c for c in cands if c['pkg'].split('/')[-1] == pkgshort and '/' not in c['pkg']] or [c for c in cands if c['pkg'].split('/')[-1] == pkgshort]
+            u = (exact or cands)[0]
             pat = '=' + kind if '$lit' not in head and u['func'] != '*' else name.split('.', 1)[1]
             if pat not in u.get('slow', []):
                 u.setdefault('slow', []).append(pat)
